@@ -8,6 +8,8 @@
  *   answers  what the wrapped epoll_pwait of the loop answers, in order:
  *            i<e>  -1/EINTR after e ms       e<e>  an event (uv_async_send) after e ms
  *            t     let the timeout expire    (also when the script is exhausted)
+ *            f<e>  a completely filled batch after e ms: the real event of a uv_async_send plus
+ *                  invalidated entries (data.fd = -1, which uv__io_poll skips) up to the 1024 asked for
  *            elapsed values are clamped to the timeout of the call.
  * One result line per case:
  *   due=<ms> { R P<given> { w<timeout>@<now>:<answer> } Q<blocked> {T@<now> | A@<now>} r<ret>@<now> } end
@@ -49,6 +51,19 @@ int __wrap_epoll_pwait(int epfd, struct epoll_event* ev, int max, int timeout, c
   a = pos < nans ? ans[pos] : "t";
   pos++;
   printf("w%d@%ld:", timeout, rel());
+  if (a[0] == 'f') {
+    int k;
+    e = atol(a + 1);
+    if (timeout >= 0 && e > timeout) e = timeout;
+    if (e < 0) e = 0;
+    vclock_ms += (uint64_t) e;
+    uv_async_send(&async);
+    n = __real_epoll_pwait(epfd, ev, max, 0, ss);
+    if (n < 0) n = 0;
+    for (k = n; k < max; k++) { memset(&ev[k], 0, sizeof ev[k]); ev[k].data.fd = -1; }
+    printf("f%ld ", e);
+    return max;
+  }
   if (a[0] == 'i' || a[0] == 'e') {
     e = atol(a + 1);
     if (timeout >= 0 && e > timeout) e = timeout;
